@@ -128,9 +128,10 @@ pub fn run_c14(ctx: &Ctx) -> i32 {
     ];
     let shared = Mutex::new(ev0);
     let limits: [u64; 9] = [0, 10, 30, 100, 300, 1000, 5000, 10_000, 1_000_000];
-    let nseq = ctx.n(400, 1200);
-    let nbatch = ctx.n(300, 1200);
-    let nmixed = ctx.n(600, 2400);
+    // (under Miri a shard interprets a handful of runs of each kind; the shards differ in their seeds)
+    let nseq = if cfg!(miri) { 4 } else { ctx.n(400, 1200) };
+    let nbatch = if cfg!(miri) { 6 } else { ctx.n(300, 1200) };
+    let nmixed = if cfg!(miri) { 6 } else { ctx.n(600, 2400) };
     let nreset = if cfg!(miri) { 1 } else { 8 };
     let next = AtomicU64::new(0);
     let deadline = if ctx.budget_s > 0 { Some(Instant::now() + Duration::from_secs(ctx.budget_s)) } else { None };
@@ -138,7 +139,7 @@ pub fn run_c14(ctx: &Ctx) -> i32 {
     let workers = if miri { 1 } else { ctx.workers };
     // supervision of the sequential runs: a store whose eviction round never ends would otherwise hang
     // the worker (and the check) for ever
-    let beat: Vec<AtomicU64> = (0..workers).map(|_| AtomicU64::new(0)).collect();
+    let beat: Vec<Arc<AtomicU64>> = (0..workers).map(|_| Arc::new(AtomicU64::new(0))).collect();
     let wtid: Vec<AtomicU64> = (0..workers).map(|_| AtomicU64::new(0)).collect();
     let wcase: Vec<AtomicU64> = (0..workers).map(|_| AtomicU64::new(u64::MAX)).collect();
     let finished = AtomicU64::new(0);
@@ -180,7 +181,7 @@ pub fn run_c14(ctx: &Ctx) -> i32 {
             let (next, shared, limits) = (&next, &shared, &limits);
             s.spawn(move || {
                 wtid[w].store(gate::gettid() as u64, Ordering::Relaxed);
-                BEAT.with(|b| *b.borrow_mut() = Some(&beat[w] as *const AtomicU64 as usize));
+                BEAT.with(|b| *b.borrow_mut() = Some(beat[w].clone()));
                 let mut local: BTreeMap<String, u64> = BTreeMap::new();
                 let mut fps: Vec<u64> = vec![];
                 let mut evals = 0u64;
@@ -258,14 +259,13 @@ pub fn run_c14(ctx: &Ctx) -> i32 {
 
 thread_local! {
     /// address of the worker's heartbeat counter (bumped after every command of a sequential run)
-    static BEAT: std::cell::RefCell<Option<usize>> = const { std::cell::RefCell::new(None) };
+    static BEAT: std::cell::RefCell<Option<Arc<AtomicU64>>> = const { std::cell::RefCell::new(None) };
 }
 
 fn heartbeat() {
     BEAT.with(|b| {
-        if let Some(p) = *b.borrow() {
-            // the counter lives in run_c14's frame, which outlives every worker of its thread scope
-            unsafe { (*(p as *const AtomicU64)).fetch_add(1, Ordering::Relaxed) };
+        if let Some(p) = b.borrow().as_ref() {
+            p.fetch_add(1, Ordering::Relaxed);
         }
     });
 }
